@@ -78,10 +78,26 @@ func PageIndividual(document *gedcom.Document, individual *gedcom.IndividualNode
 
 	individuals := GetIndividuals(document, placesMap)
 
+	// Several individuals can have the same pointer. Each of them has a page
+	// of its own, so look for the individual itself first.
 	for key, value := range individuals {
-		if value.Is(individual) {
+		if value == individual {
 			return fmt.Sprintf("%s.html", key)
 		}
+	}
+
+	// Otherwise (an individual that is not from this document) the pointer
+	// decides. The first page by name makes sure the result does not depend
+	// on the order of the map.
+	page := ""
+	for key, value := range individuals {
+		if value.Is(individual) && (page == "" || key < page) {
+			page = key
+		}
+	}
+
+	if page != "" {
+		return fmt.Sprintf("%s.html", page)
 	}
 
 	return "#"
